@@ -33,13 +33,14 @@ const (
 	cpuFloorUs    = 15_000_000 // 15 s of CPU for any call (4.5 x the JBIG2 outlier, 30 x the rest; below the watchdog)
 	cpuPerKiBUs   = 100_000    // + 100 ms per KiB of input (20 x)
 	allocFloorKiB = 160 << 10  // 160 MiB for any call (20 x limits.StreamBudgetBase, 20 x the worst small input)
+	openFloorKiB  = 16 << 10   // 16 MiB for NewReader / MakeReader (27 x the worst observation of 0.6 MiB; limits.MaxXRefEntries allows 8192 entries before the input counts)
 	allocPerKiB   = 4096       // + 4 MiB per KiB of input (4 x limits.StreamBudgetMultiplier; 240 x the worst large input)
 	maxLenKiB     = 16384      // beyond 16 MiB of input the bounds stop growing (32 bit arithmetic in TLC)
 )
 
 func envelopeCfg() string {
-	return fmt.Sprintf("SPECIFICATION Spec\nCONSTANTS CpuFloorUs = %d\n  CpuPerKiBUs = %d\n  AllocFloorKiB = %d\n  AllocPerKiB = %d\n  MaxLenKiB = %d\nCHECK_DEADLOCK FALSE\n",
-		cpuFloorUs, cpuPerKiBUs, allocFloorKiB, allocPerKiB, maxLenKiB)
+	return fmt.Sprintf("SPECIFICATION Spec\nCONSTANTS CpuFloorUs = %d\n  CpuPerKiBUs = %d\n  AllocFloorKiB = %d\n  OpenAllocFloorKiB = %d\n  AllocPerKiB = %d\n  MaxLenKiB = %d\nCHECK_DEADLOCK FALSE\n",
+		cpuFloorUs, cpuPerKiBUs, allocFloorKiB, openFloorKiB, allocPerKiB, maxLenKiB)
 }
 
 // slimRec is what TLC sees of a record (integers and short strings only).
